@@ -246,6 +246,7 @@ def run(ctx: Ctx):
                                         for n in vg.walk(blv))
     ctx.ob("C16.b", "REINFORCE.calculate_loss:baseline-source", okb, fi.loc, "bl_val, bl_loss = baseline.eval(td, reward, env) unless the batch carries 'extra'", construct="REINFORCE.calculate_loss:baseline-source")
     reinforce_variants(ctx)
+    symnco_total(ctx)
     # ---------------- SymNCO losses
     for nm in ("problem_symmetricity_loss", "solution_symmetricity_loss"):
         fi = ctx.repo.get_function(SYM, nm)
@@ -419,6 +420,34 @@ def run(ctx: Ctx):
         ent = [1 for c, fs in tm if c == -1 and any("entropy_lambda" in vg.show(a, 4) for a, _ in fs) and any(a.op == "meth" and a.args[1] == "mean" for a, _ in fs)]
         ok_t = len(surr) == 1 and len(val) == 1 and len(ent) == 1
     ctx.ob("C16.b", "PPO.shared_step:total-loss", ok_t, pp.loc, f"loss = surrogate + vf_lambda * value_loss - entropy_lambda * mean(entropy): {pl.show(2)[:160]}", construct="PPO.shared_step:total")
+
+
+def symnco_total(ctx: Ctx):
+    """C16.b SymNCO.shared_step: the loss handed to the optimiser is  loss_ps + beta * loss_ss + alpha * loss_inv  with each
+    term individually replaced by 0 when its replication factor is off.  Read off the dict passed to out.update (the keys are
+    the module's reporting API): poly(loss) == poly(loss_ps) + beta * poly(loss_ss) + alpha * poly(loss_inv), where the three
+    summands are the very values reported under their keys (a conditional expression that swallows the other summands --
+    `a if c else 0 + b + d` -- reports the same three values but another sum)."""
+    cls = ctx.repo.get_class("rl4co/models/zoo/symnco/model.py", "SymNCO")
+    fi = cls.methods.get("shared_step")
+    if fi is None:
+        raise AnalysisError("SymNCO.shared_step not found")
+    ctx.fn(fi)
+    it = vg.Interp(ctx.repo, cls, inline_policy=lambda f, a: False)
+    it.run_function(fi)
+    L = {}
+    for e in it.events:
+        if e.kind == "methcall" and e.data[1] == "update" and e.data[2] and isinstance(e.data[2][0], vg.S) and e.data[2][0].op == "dict":
+            for it_ in e.data[2][0].args:
+                if it_.op == "item" and it_.args[0].op == "const" and it_.args[0].args[0] in ("loss", "loss_ps", "loss_ss", "loss_inv"):
+                    L[it_.args[0].args[0]] = it_.args[1]
+    if set(L) != {"loss", "loss_ps", "loss_ss", "loss_inv"}:
+        raise AnalysisError(f"SymNCO.shared_step: reported losses not found ({sorted(L)})")
+    want = nf.poly(L["loss_ps"]) + nf.poly(vg.mk("selfattr", "beta")) * nf.poly(L["loss_ss"]) + nf.poly(vg.mk("selfattr", "alpha")) * nf.poly(L["loss_inv"])
+    ok = nf.poly(L["loss"]) == want
+    ctx.ob("C16.b", "SymNCO.shared_step:total-loss", ok, fi.loc,
+           f"loss == loss_ps + beta * loss_ss + alpha * loss_inv (the reported summands): {ok}" + ("" if ok else f"; found {nf.poly(L['loss']).show(2)[:120]}"),
+           construct="SymNCO.shared_step:total-loss")
 
 
 def reinforce_variants(ctx: Ctx):
